@@ -4,12 +4,4 @@ NOTES = ("Technique: machine-checked proof in Coq 8.16 about a Gallina model; th
          "(a) definitions regenerated from the source by tools/cxx2v.py where available and (b) a byte-exact correspondence check "
          "between the OCaml extraction of the model and a C++ harness linked against a fresh build of /repo's working tree. "
          "See DESIGN.md. known_findings.json lists genuine defects that are recorded rather than repaired.")
-PROPS = {
- "C17": {"claimed": True, "category": "proof",
-   "text": "Theorems (unbounded, by induction): unsigned/signed varints of every width (8/16/32/64) and little-endian scalars are "
-           "roundtrips (lossless, self-delimiting, independent of trailing bytes); zig-zag maps are inverse; the encoder never exceeds the decoder's depth limit. "
-           "Tie: byte-exact correspondence of model and implementation on encodes and on decodes of arbitrary byte strings, plus direct round-trip search on the real classes.",
-   "note": "Trusted: Coq kernel, extraction (ExtrOcamlBasic), the OCaml/C++ glue, the generators. Model is hand-written; the correspondence is testing. "
-           "Bit coders (rANS/adaptive/direct/folded/symbol) and bit-sequence mode are being added; until their theorems land this claim covers the varint/scalar part (partial).",
-   "technique": "Coq proof (induction) + byte-exact model/implementation correspondence"},
-}
+PROPS = {}  # filled from props/reg/<id>.json
